@@ -261,17 +261,21 @@ impl<'a> G<'a> {
         }
     }
 
-    fn container_of_nums(&mut self, depth: u32) -> E {
-        // a list/tuple/range expression whose elements are numbers
+    /// a list/tuple/range expression whose elements are numbers, and its length
+    fn container_of_nums(&mut self, depth: u32) -> (E, usize) {
         match self.s.below(3) {
-            0 => self.expr_of(K::Range, depth),
+            0 => {
+                let a = self.s.below(4) as i64;
+                let n = 1 + self.s.below(3) as i64;
+                (E::Range(Some(bx(E::Int(a))), Some(bx(E::Int(a + n))), false), n as usize)
+            }
             1 => {
                 let n = 1 + self.s.below(3);
-                E::List((0..n).map(|_| self.expr(K::Num, depth.saturating_sub(1))).collect())
+                (E::List((0..n).map(|_| self.expr(K::Num, depth.saturating_sub(1))).collect()), n as usize)
             }
             _ => {
                 let n = 1 + self.s.below(3);
-                E::Tuple((0..n).map(|_| self.expr(K::Num, depth.saturating_sub(1))).collect())
+                (E::Tuple((0..n).map(|_| self.expr(K::Num, depth.saturating_sub(1))).collect()), n as usize)
             }
         }
     }
@@ -306,9 +310,10 @@ impl<'a> G<'a> {
                     3 => {
                         // index into a list/tuple of numbers
                         self.feat("index");
-                        let c = self.container_of_nums(d);
+                        let (c, len) = self.container_of_nums(d);
                         let c = if matches!(c, E::Range(..)) { E::Paren(bx(c)) } else { c };
-                        E::Index(bx(c), bx(self.small_index()))
+                        let idx = if self.s.chance(92) { E::Int(self.s.below(len as u32) as i64) } else { self.small_index() };
+                        E::Index(bx(c), bx(idx))
                     }
                     4 => {
                         self.feat("size");
@@ -637,7 +642,7 @@ impl<'a> G<'a> {
                 let _ = (l, r);
                 false
             }
-            E::Neg(_) | E::Index(..) | E::Call(..) | E::Dot(..) => false,
+            E::Neg(_) | E::Index(..) | E::Call(..) | E::Dot(..) | E::Fn(..) => false,
             _ => true,
         }
     }
@@ -1143,11 +1148,41 @@ pub fn domain_ok(prog: &[E]) -> Result<(), &'static str> {
     };
     let mut problem: Option<&'static str> = None;
     for e in prog {
+        crate::model::visit_no_nested_fn(e, &mut |x| {
+            if matches!(x, E::Yield(_) | E::Return(_)) {
+                problem = Some("yield/return outside of a function");
+            }
+        });
+    }
+    // bare function literals as statements
+    let mut check_block = |b: &[E]| {
+        for st in b.iter().take(b.len().saturating_sub(1)) {
+            if matches!(st, E::Fn(..)) {
+                problem = Some("function literal as a statement");
+            }
+        }
+    };
+    check_block(prog);
+    for e in prog {
+        e.visit(&mut |x| match x {
+            E::Fn(_, _, b) | E::Loop(b) | E::While(_, _, b) | E::For(_, _, b) => check_block(b),
+            E::If(arms, els) => {
+                for (_, b) in arms {
+                    check_block(b)
+                }
+                if let Some(b) = els {
+                    check_block(b)
+                }
+            }
+            _ => {}
+        });
+    }
+    for e in prog {
         e.visit(&mut |x| {
             match x {
                 E::For(pats, it, body) => {
-                    if pats.is_empty() {
-                        problem = Some("for without arguments");
+                    if pats.is_empty() || body.is_empty() {
+                        problem = Some("for without arguments or body");
                     }
                     // loop variables are not read outside the loop
                     for p in pats {
@@ -1194,8 +1229,33 @@ pub fn domain_ok(prog: &[E]) -> Result<(), &'static str> {
                     }
                 }
                 E::MultiAssign(ts, _) => {
-                    if ts.is_empty() {
-                        problem = Some("empty multi-assign");
+                    if ts.len() < 2 {
+                        problem = Some("multi-assign with fewer than two targets");
+                    }
+                }
+                E::Fn(_, _, b) | E::Loop(b) | E::While(_, _, b) => {
+                    if b.is_empty() {
+                        problem = Some("empty block");
+                    }
+                }
+                E::If(arms, els) => {
+                    if arms.is_empty() || arms.iter().any(|(_, b)| b.is_empty()) || els.as_ref().map(|b| b.is_empty()).unwrap_or(false) {
+                        problem = Some("empty block");
+                    }
+                }
+                E::Switch(arms) => {
+                    if arms.is_empty() || arms.iter().any(|(_, b)| b.is_empty()) {
+                        problem = Some("empty block");
+                    }
+                }
+                E::Try(b, cs, f) => {
+                    if b.is_empty() || cs.is_empty() || cs.iter().any(|c| c.body.is_empty()) || f.as_ref().map(|b| b.is_empty()).unwrap_or(false) {
+                        problem = Some("empty block");
+                    }
+                }
+                E::Match(s, arms, els) => {
+                    if s.is_empty() || arms.is_empty() || arms.iter().any(|a| a.body.is_empty() || a.alts.is_empty() || a.alts.iter().any(|x| x.is_empty())) || els.as_ref().map(|b| b.is_empty()).unwrap_or(false) {
+                        problem = Some("empty block");
                     }
                 }
                 E::Tuple(_) | E::List(_) => {}
@@ -1206,5 +1266,504 @@ pub fn domain_ok(prog: &[E]) -> Result<(), &'static str> {
     match problem {
         Some(p) => Err(p),
         None => Ok(()),
+    }
+}
+
+// =================================================================================================
+// profile "functions" (C02)
+
+#[derive(Clone, Debug, PartialEq)]
+pub enum Param {
+    Plain,
+    Default,
+    Variadic,
+    /// nested unpack: number of fixed elements, rest position (None / Some(true)=leading / Some(false)=trailing), rest named
+    Unpack(usize, Option<bool>, bool),
+    Ignored,
+}
+
+#[derive(Clone, Debug)]
+pub struct FnSig {
+    pub name: String,
+    pub params: Vec<Param>,
+    pub is_gen: bool,
+}
+
+impl<'a> G<'a> {
+    fn num(&mut self, depth: u32) -> E {
+        self.expr(K::Num, depth)
+    }
+
+    fn gen_sig(&mut self, name: &str, is_gen: bool) -> FnSig {
+        let mut params = vec![];
+        let n_plain = self.s.below(3);
+        for _ in 0..n_plain {
+            let c = self.s.weighted(&[70, 20, 10]);
+            params.push(match c {
+                0 => Param::Plain,
+                1 => {
+                    let n = 1 + self.s.below(3) as usize;
+                    let rest = match self.s.below(4) {
+                        0 => Some(true),
+                        1 => Some(false),
+                        _ => None,
+                    };
+                    Param::Unpack(n, rest, self.s.chance(60))
+                }
+                _ => Param::Ignored,
+            });
+        }
+        let n_def = self.s.weighted(&[50, 30, 20]);
+        for _ in 0..n_def {
+            params.push(Param::Default);
+        }
+        if self.s.chance(35) {
+            params.push(Param::Variadic);
+        }
+        FnSig { name: name.to_string(), params, is_gen }
+    }
+
+    /// Builds the FnArg list and the (name, kind) list of variables the parameters bind
+    fn build_params(&mut self, sig: &FnSig) -> (Vec<FnArg>, Vec<(String, K)>) {
+        let mut args = vec![];
+        let mut binds = vec![];
+        for p in &sig.params {
+            match p {
+                Param::Plain => {
+                    let n = self.fresh("a");
+                    binds.push((n.clone(), K::Num));
+                    args.push(FnArg { pat: Pat::Id(n, None), default: None, variadic: false });
+                }
+                Param::Ignored => {
+                    let named = self.s.chance(50);
+                    let n = if named { Some(self.fresh("ig")) } else { None };
+                    args.push(FnArg { pat: Pat::Wild(n, None), default: None, variadic: false });
+                }
+                Param::Default => {
+                    let n = self.fresh("d");
+                    // defaults read outer variables: evaluated once, at creation
+                    let d = self.num(1);
+                    binds.push((n.clone(), K::Num));
+                    args.push(FnArg { pat: Pat::Id(n, None), default: Some(d), variadic: false });
+                }
+                Param::Variadic => {
+                    let n = self.fresh("vs");
+                    binds.push((n.clone(), K::Tuple));
+                    args.push(FnArg { pat: Pat::Id(n, None), default: None, variadic: true });
+                }
+                Param::Unpack(k, rest, named) => {
+                    let mut ps = vec![];
+                    let mut elems = vec![];
+                    for _ in 0..*k {
+                        let n = self.fresh("u");
+                        binds.push((n.clone(), K::Num));
+                        elems.push(Pat::Id(n, None));
+                    }
+                    let restp = |g: &mut Self, binds: &mut Vec<(String, K)>| {
+                        if *named {
+                            let n = g.fresh("ur");
+                            binds.push((n.clone(), K::Tuple));
+                            Pat::Rest(Some(n))
+                        } else {
+                            Pat::Rest(None)
+                        }
+                    };
+                    match rest {
+                        Some(true) => {
+                            ps.push(restp(self, &mut binds));
+                            ps.extend(elems);
+                        }
+                        Some(false) => {
+                            ps.extend(elems);
+                            ps.push(restp(self, &mut binds));
+                        }
+                        None => ps.extend(elems),
+                    }
+                    args.push(FnArg { pat: Pat::Seq(ps, false), default: None, variadic: false });
+                }
+            }
+        }
+        (args, binds)
+    }
+
+    /// enter a function body scope: outer variables become read-only captures
+    fn enter_fn(&mut self, binds: &[(String, K)]) -> Vec<Var> {
+        let saved = self.vars.clone();
+        for v in self.vars.iter_mut() {
+            v.writable = false;
+        }
+        for (n, k) in binds {
+            self.vars.push(Var { name: n.clone(), kind: *k, writable: false, arity: 0, ret: K::Null });
+        }
+        saved
+    }
+
+    fn summary_print(&mut self, tag: &str, binds: &[(String, K)]) -> E {
+        let mut parts = vec![SPart::Lit(tag.to_string())];
+        for (n, _) in binds {
+            parts.push(SPart::Lit(" ".into()));
+            parts.push(SPart::Expr(id(n), None));
+        }
+        E::Print(vec![E::Str(parts)])
+    }
+
+    fn fn_def(&mut self, is_gen: bool) -> (E, FnSig) {
+        let name = self.fresh("f");
+        let sig = self.gen_sig(&name, is_gen);
+        let (args, binds) = self.build_params(&sig);
+        let saved = self.enter_fn(&binds);
+        let saved_loops = (self.loop_depth, std::mem::take(&mut self.loop_captured));
+        self.loop_depth = 0;
+        let mut body = vec![self.summary_print(&name, &binds)];
+        if self.s.chance(40) {
+            body.extend(self.body(2));
+        }
+        if is_gen {
+            self.feat("generator-def");
+            // yields inside for / while / if, optional early return
+            let k = 1 + self.s.below(3) as i64;
+            let iv = self.fresh("gi");
+            let mut lb = vec![];
+            if self.s.chance(60) {
+                lb.push(E::Print(vec![E::Str(vec![SPart::Lit(format!("{name} before yield ")), SPart::Expr(id(&iv), None)])]));
+            }
+            self.vars.push(Var { name: iv.clone(), kind: K::Num, writable: false, arity: 0, ret: K::Null });
+            let y = self.num(2);
+            if self.s.chance(30) {
+                let c = self.expr(K::Bool, 1);
+                lb.push(E::If(vec![(c, vec![E::Yield(bx(y))])], None));
+            } else {
+                lb.push(E::Yield(bx(y)));
+            }
+            if self.s.chance(25) {
+                let c = self.expr(K::Bool, 1);
+                lb.push(E::If(vec![(c, vec![E::Return(None)])], None));
+            }
+            if self.s.chance(40) {
+                lb.push(E::Print(vec![E::Str(vec![SPart::Lit(format!("{name} after yield ")), SPart::Expr(id(&iv), None)])]));
+            }
+            self.vars.pop();
+            body.push(E::For(vec![Pat::Id(iv, None)], bx(E::Range(Some(bx(E::Int(0))), Some(bx(E::Int(k))), false)), lb));
+            if self.s.chance(50) {
+                body.push(E::Yield(bx(self.num(1))));
+            }
+            if self.s.chance(30) {
+                body.push(E::Print(vec![lit_str(&format!("{name} finished"))]));
+            }
+        } else {
+            self.feat("function-def");
+            if self.s.chance(20) {
+                // early return
+                let c = self.expr(K::Bool, 1);
+                let r = self.num(1);
+                body.push(E::If(vec![(c, vec![E::Return(Some(bx(r)))])], None));
+                self.feat("early-return");
+            }
+            if self.s.chance(25) {
+                // nested closure capturing the function's own arguments
+                self.feat("nested-closure");
+                let inner = self.fresh("g");
+                let p = self.fresh("a");
+                self.vars.push(Var { name: p.clone(), kind: K::Num, writable: false, arity: 0, ret: K::Null });
+                let ib = self.num(2);
+                self.vars.pop();
+                body.push(E::Assign(bx(id(&inner)), None, bx(E::Fn(vec![FnArg { pat: Pat::Id(p, None), default: None, variadic: false }], None, vec![ib]))));
+                let arg = self.num(1);
+                body.push(E::Call(bx(id(&inner)), vec![(arg, false)]));
+            } else {
+                body.push(self.num(3));
+            }
+        }
+        self.vars = saved;
+        self.loop_depth = saved_loops.0;
+        self.loop_captured = saved_loops.1;
+        (E::Assign(bx(id(&name)), None, bx(E::Fn(args, None, flatten(body)))), sig)
+    }
+
+    fn seq_of(&mut self, n: usize) -> E {
+        let items: Vec<E> = (0..n).map(|_| self.num(1)).collect();
+        match self.s.below(3) {
+            0 => E::List(items),
+            _ => E::Tuple(items),
+        }
+    }
+
+    /// arguments for a call of `sig`: (args, is_well_formed)
+    fn call_args(&mut self, sig: &FnSig) -> Vec<(E, bool)> {
+        let mut args: Vec<(E, bool)> = vec![];
+        let n_def = sig.params.iter().filter(|p| **p == Param::Default).count();
+        let supply_defaults = self.s.below(n_def as u32 + 1) as usize;
+        let mut defaults_seen = 0;
+        for p in &sig.params {
+            match p {
+                Param::Plain | Param::Ignored => args.push((self.num(2), false)),
+                Param::Default => {
+                    if defaults_seen < supply_defaults {
+                        args.push((self.num(1), false));
+                    }
+                    defaults_seen += 1;
+                }
+                Param::Variadic => {
+                    if supply_defaults == n_def {
+                        let extra = self.s.below(4);
+                        for _ in 0..extra {
+                            args.push((self.num(1), false));
+                        }
+                    }
+                }
+                Param::Unpack(k, rest, _) => {
+                    let n = match rest {
+                        None => {
+                            if self.s.chance(3) {
+                                self.feat("unpack-size-mismatch");
+                                *k + 1
+                            } else {
+                                *k
+                            }
+                        }
+                        Some(_) => *k + self.s.below(3) as usize,
+                    };
+                    let mut seq = self.seq_of(n);
+                    if let (E::List(items), Param::Unpack(_, Some(_), true)) = (&seq, p) {
+                        // the rest of a list is a list, the guide only documents tuples
+                        seq = E::Tuple(items.clone());
+                    }
+                    args.push((seq, false));
+                }
+            }
+        }
+        // arity errors on purpose
+        if self.s.chance(2) {
+            self.feat("arity-too-few");
+            args.pop();
+        } else if self.s.chance(2) {
+            self.feat("arity-too-many");
+            for _ in 0..3 {
+                args.push((E::Int(7), false));
+            }
+        }
+        // packed form: splice a run of plain arguments into `(a, b)...`
+        if args.len() >= 2 && self.s.chance(25) {
+            self.feat("packed-args");
+            let start = self.s.below(args.len() as u32 - 1) as usize;
+            let len = 1 + self.s.below((args.len() - start) as u32) as usize;
+            let run: Vec<E> = args[start..start + len].iter().map(|a| a.0.clone()).collect();
+            let packed = match self.s.below(3) {
+                0 => E::List(run),
+                _ => E::Tuple(run),
+            };
+            args.splice(start..start + len, vec![(packed, true)]);
+        } else if self.s.chance(5) {
+            self.feat("packed-empty");
+            args.push((E::Tuple(vec![]), true));
+        }
+        args
+    }
+
+    fn call_of(&mut self, sig: &FnSig) -> E {
+        let args = self.call_args(sig);
+        E::Call(bx(id(&sig.name)), args)
+    }
+
+    pub fn fn_scenario(&mut self, fns: &mut Vec<FnSig>) -> Vec<E> {
+        let c = self.s.weighted(&[30, 8, 14, 10, 18, 8, 8, 14]);
+        let mut out = vec![];
+        match c {
+            0 => {
+                let (def, sig) = self.fn_def(false);
+                out.push(def);
+                let n = 1 + self.s.below(3);
+                for _ in 0..n {
+                    let call = self.call_of(&sig);
+                    out.push(E::Print(vec![call]));
+                }
+                fns.push(sig);
+            }
+            1 => {
+                self.feat("recursion");
+                let name = self.fresh("rec");
+                let n = self.fresh("a");
+                let body = E::If(
+                    vec![(E::Bin(Op::Le, bx(id(&n)), bx(E::Int(0))), vec![E::Int(0)])],
+                    Some(vec![E::Bin(Op::Add, bx(id(&n)), bx(E::Call(bx(id(&name)), vec![(E::Bin(Op::Sub, bx(id(&n)), bx(E::Int(1))), false)])))]),
+                );
+                out.push(E::Assign(bx(id(&name)), None, bx(E::Fn(vec![FnArg { pat: Pat::Id(n, None), default: None, variadic: false }], None, vec![body]))));
+                out.push(E::Print(vec![E::Call(bx(id(&name)), vec![(E::Int(self.s.below(6) as i64), false)])]));
+            }
+            2 => {
+                // capture by copy: reassign after capture; shared list through capture
+                self.feat("capture-scenario");
+                let k = self.fresh("k");
+                let l = self.fresh("cl");
+                let f = self.fresh("f");
+                let a = self.fresh("a");
+                let e1 = self.num(1);
+                out.push(E::Assign(bx(id(&k)), None, bx(e1)));
+                out.push(E::Assign(bx(id(&l)), None, bx(E::List(vec![E::Int(1), E::Int(2)]))));
+                let body = vec![
+                    E::Assign(bx(E::Index(bx(id(&l)), bx(E::Int(self.s.below(2) as i64)))), None, bx(E::Bin(Op::Add, bx(id(&k)), bx(id(&a))))),
+                    E::Bin(Op::Add, bx(id(&k)), bx(id(&a))),
+                ];
+                out.push(E::Assign(bx(id(&f)), None, bx(E::Fn(vec![FnArg { pat: Pat::Id(a, None), default: None, variadic: false }], None, body))));
+                let e2 = self.num(1);
+                out.push(E::Assign(bx(id(&k)), None, bx(e2)));
+                if self.s.chance(50) {
+                    out.push(E::Assign(bx(id(&l)), None, bx(E::List(vec![E::Int(7)]))));
+                }
+                let arg = self.num(1);
+                out.push(E::Print(vec![E::Call(bx(id(&f)), vec![(arg, false)])]));
+                out.push(E::Print(vec![E::Str(vec![SPart::Expr(id(&k), None), SPart::Lit(" ".into()), SPart::Expr(id(&l), None)])]));
+            }
+            3 => {
+                // object with methods using self
+                self.feat("methods");
+                let o = self.fresh("o");
+                let a = self.fresh("a");
+                let v0 = self.num(1);
+                let get_body = self.s.chance(50);
+                let m = E::Map(vec![
+                    ("v".into(), v0),
+                    ("get".into(), E::Fn(vec![FnArg { pat: Pat::Id(a.clone(), None), default: None, variadic: false }], None, vec![if get_body { E::Bin(Op::Add, bx(E::Dot(bx(id("self")), "v".into())), bx(id(&a))) } else { E::Bin(Op::Mul, bx(id(&a)), bx(E::Dot(bx(id("self")), "v".into()))) }])),
+                    ("bump".into(), E::Fn(vec![FnArg { pat: Pat::Id(a.clone(), None), default: None, variadic: false }], None, vec![E::Assign(bx(E::Dot(bx(id("self")), "v".into())), Some(Op::Add), bx(id(&a))), E::Dot(bx(id("self")), "v".into())])),
+                ]);
+                out.push(E::Assign(bx(id(&o)), None, bx(m)));
+                let n = 1 + self.s.below(3);
+                for _ in 0..n {
+                    let arg = self.num(1);
+                    let meth = if self.s.chance(50) { "get" } else { "bump" };
+                    out.push(E::Print(vec![E::Call(bx(E::Dot(bx(id(&o)), meth.into())), vec![(arg, false)])]));
+                }
+                out.push(E::Print(vec![E::Dot(bx(id(&o)), "v".into())]));
+            }
+            4 => {
+                // generator definition and consumption
+                let (def, sig) = self.fn_def(true);
+                out.push(def);
+                let call = self.call_of(&sig);
+                match self.s.below(5) {
+                    0 => {
+                        self.feat("generator-for");
+                        let x = self.fresh("x");
+                        out.push(E::For(vec![Pat::Id(x.clone(), None)], bx(call), vec![E::Print(vec![E::Str(vec![SPart::Lit("got ".into()), SPart::Expr(id(&x), None)])])]));
+                    }
+                    1 => {
+                        self.feat("generator-unpack");
+                        let names: Vec<String> = (0..2 + self.s.below(2)).map(|_| self.fresh("m")).collect();
+                        out.push(E::MultiAssign(names.iter().map(|n| id(n)).collect(), bx(call)));
+                        let mut parts = vec![];
+                        for n in &names {
+                            parts.push(SPart::Expr(id(n), None));
+                            parts.push(SPart::Lit(" ".into()));
+                        }
+                        out.push(E::Print(vec![E::Str(parts)]));
+                    }
+                    2 => {
+                        self.feat("generator-to-tuple");
+                        let m = if self.s.chance(50) { "to_tuple" } else { "to_list" };
+                        out.push(E::Print(vec![E::Call(bx(E::Dot(bx(call), m.into())), vec![])]));
+                    }
+                    3 => {
+                        // pause and resume: break out of a for loop, continue with a second loop
+                        self.feat("generator-pause-resume");
+                        let it = self.fresh("it");
+                        let x = self.fresh("x");
+                        let y = self.fresh("y");
+                        out.push(E::Assign(bx(id(&it)), None, bx(call)));
+                        out.push(E::For(vec![Pat::Id(x.clone(), None)], bx(id(&it)), vec![E::Print(vec![E::Str(vec![SPart::Lit("first ".into()), SPart::Expr(id(&x), None)])]), E::Break(None)]));
+                        out.push(E::Print(vec![lit_str("between")]));
+                        out.push(E::For(vec![Pat::Id(y.clone(), None)], bx(id(&it)), vec![E::Print(vec![E::Str(vec![SPart::Lit("second ".into()), SPart::Expr(id(&y), None)])])]));
+                    }
+                    _ => {
+                        // generator output forwarded as packed arguments to a variadic function
+                        self.feat("generator-packed");
+                        let f = self.fresh("f");
+                        let vs = self.fresh("vs");
+                        out.push(E::Assign(bx(id(&f)), None, bx(E::Fn(vec![FnArg { pat: Pat::Id(vs.clone(), None), default: None, variadic: true }], None, vec![id(&vs)]))));
+                        out.push(E::Print(vec![E::Call(bx(id(&f)), vec![(E::Int(0), false), (call, true)])]));
+                    }
+                }
+                fns.push(sig);
+            }
+            5 => {
+                // piped call: a -> f b  ==  f(a, b)
+                self.feat("piped-call");
+                let f = self.fresh("f");
+                let (a, b) = (self.fresh("a"), self.fresh("a"));
+                out.push(E::Assign(
+                    bx(id(&f)),
+                    None,
+                    bx(E::Fn(
+                        vec![FnArg { pat: Pat::Id(a.clone(), None), default: None, variadic: false }, FnArg { pat: Pat::Id(b.clone(), None), default: Some(E::Int(1)), variadic: false }],
+                        None,
+                        vec![E::Bin(Op::Sub, bx(E::Bin(Op::Mul, bx(id(&a)), bx(E::Int(10)))), bx(id(&b)))],
+                    )),
+                ));
+                let r = self.fresh("p");
+                let x = self.num(1);
+                let x = if matches!(x, E::Bin(..)) { E::Paren(bx(x)) } else { x };
+                let piped = if self.s.chance(50) {
+                    let y = self.num(1);
+                    let y = if Self::starts_with_neg(&y) { E::Int(3) } else { y };
+                    E::Pipe(bx(x), bx(E::Call(bx(id(&f)), vec![(y, false)])))
+                } else {
+                    E::Pipe(bx(x), bx(id(&f)))
+                };
+                let piped = if self.s.chance(30) { E::Pipe(bx(piped), bx(id(&f))) } else { piped };
+                out.push(E::Assign(bx(id(&r)), None, bx(piped)));
+                out.push(E::Print(vec![id(&r)]));
+            }
+            6 => {
+                // closure factory
+                self.feat("closure-factory");
+                let mk = self.fresh("mk");
+                let (a, b) = (self.fresh("a"), self.fresh("a"));
+                let add = self.fresh("f");
+                let inner = E::Fn(vec![FnArg { pat: Pat::Id(b.clone(), None), default: None, variadic: false }], None, vec![E::Bin(Op::Sub, bx(id(&a)), bx(id(&b)))]);
+                out.push(E::Assign(bx(id(&mk)), None, bx(E::Fn(vec![FnArg { pat: Pat::Id(a.clone(), None), default: None, variadic: false }], None, vec![inner]))));
+                let x = self.num(1);
+                out.push(E::Assign(bx(id(&add)), None, bx(E::Call(bx(id(&mk)), vec![(x, false)]))));
+                let y = self.num(1);
+                out.push(E::Print(vec![E::Call(bx(id(&add)), vec![(y, false)])]));
+                let z = self.num(1);
+                out.push(E::Print(vec![E::Call(bx(E::Call(bx(id(&mk)), vec![(z, false)])), vec![(E::Int(1), false)])]));
+            }
+            _ => {
+                // call an earlier function again, or a core statement
+                if !fns.is_empty() && self.s.chance(60) {
+                    let sig = fns[self.s.below(fns.len() as u32) as usize].clone();
+                    if sig.is_gen {
+                        let call = self.call_of(&sig);
+                        out.push(E::Print(vec![E::Call(bx(E::Dot(bx(call), "to_tuple".into())), vec![])]));
+                    } else {
+                        let call = self.call_of(&sig);
+                        out.push(E::Print(vec![call]));
+                    }
+                } else {
+                    out.push(self.stmt());
+                }
+            }
+        }
+        out
+    }
+
+    pub fn fn_program(&mut self) -> Vec<E> {
+        let mut prog = vec![];
+        for (name, k) in [("n1", K::Num), ("n2", K::Num), ("s1", K::Str), ("b1", K::Bool), ("l1", K::List), ("t1", K::Tuple)] {
+            let e = match k {
+                K::List => E::List(vec![E::Int(1), E::Int(2), E::Int(3)]),
+                K::Tuple => E::Tuple(vec![E::Int(4), E::Int(5)]),
+                _ => self.leaf(k),
+            };
+            prog.push(E::Assign(bx(id(name)), None, bx(e)));
+            self.declare(name, k);
+        }
+        let mut fns = vec![];
+        let n = 2 + self.s.below(6);
+        for _ in 0..n {
+            let sc = self.fn_scenario(&mut fns);
+            prog.extend(sc);
+        }
+        prog.push(self.num(2));
+        flatten(prog)
     }
 }
